@@ -16,12 +16,14 @@ disp    stage <s> <maxAttempts> <minBackoff ms> <maxBackoff ms> <concurrency> <b
              dispatcher is restarted with another MaxAttempts)
         entry <i> <script per stage>         per Publish call: 1 ok · 0 failed, reported · K ok, delete lost · L failed,
              report lost (worker died between claim and report / ReleaseClaim or DeadLetter failed); then: succeed
-        pub <i> <stage> <attempt> <outcome> <delay ms|~> <early 0|1>   delay = nextAttemptAt − now as handed to ReleaseClaim;
-             early = the NEXT call started before its scheduled instant
+        pub <i> <stage> <attempt> <outcome> <lo ms|~> <hi ms|~> <early 0|1>   the backoff after a reported, released failure lies
+             in [lo, hi]: lo = nextAttemptAt − now as handed to ReleaseClaim (never more than the delay), hi = scheduled
+             instant of the next Publish − return of this one (never less); early = the NEXT call started before its schedule
         final <i> delivered|dead|pending <attempts|~>
 tie:   Pithos.Notify (ruleMatches / attempt / runScript) must reproduce result, state change, rows,
-       publish sequence, final state, delays (± tolerance, the code computes them in float64);
-judge: rows ⇔ committed ∧ selected (Pithos.NotifyS3), delivery / dead-letter accounting, backoff bounds.
+       publish sequence, final state, and the backoff must lie between the two measurements;
+judge: rows ⇔ committed ∧ selected by the MUTATED bucket's rules and addressed to it (Pithos.NotifyS3), delivery /
+       dead-letter accounting, bounded retries also with lost reports, backoff bounds.
 -/
 import Pithos.Util.Proto
 import Pithos.Model.Notify
@@ -96,7 +98,6 @@ def removeOne (r : Row) : List Row → Option (List Row)
 def minus (a b : List Row) : List Row :=
   b.foldl (fun acc r => match removeOne r acc with | some acc' => acc' | none => acc) a
 
-def delayTolMs : Nat := 60
 
 end C22
 
@@ -196,7 +197,8 @@ structure PubObs where
   stage : Nat
   attempt : Nat
   outcome : Char
-  delay : Option Nat
+  lo : Option Nat
+  hi : Option Nat
   early : Bool
 
 structure EntryObs where
@@ -243,8 +245,8 @@ def judgeDisp (lines : List String) : Verdict := Id.run do
     | ["stage", _, mx, mn, mb, _, _, _] => dcs := dcs ++ [{ maxAttempts := mx.toNat!, minBackoff := mn.toNat!, maxBackoff := mb.toNat! }]
     | "entry" :: i :: scs =>
       entries := entries ++ [{ idx := i.toNat!, scripts := scs.map fun sc => if sc == "~" then [] else sc.toList.map outcomeOf }]
-    | ["pub", i, st, a, o, d, early] =>
-      let p : PubObs := { stage := st.toNat!, attempt := a.toNat!, outcome := (o.toList.headD '?'), delay := if d == "~" then none else some d.toNat!, early := early == "1" }
+    | ["pub", i, st, a, o, lo, hi, early] =>
+      let p : PubObs := { stage := st.toNat!, attempt := a.toNat!, outcome := (o.toList.headD '?'), lo := lo.toNat?, hi := hi.toNat?, early := early == "1" }
       entries := entries.map fun e => if e.idx == i.toNat! then { e with pubs := e.pubs ++ [p] } else e
     | ["final", i, f, a] =>
       entries := entries.map fun e => if e.idx == i.toNat! then { e with final := f, attempts := a.toNat? } else e
@@ -269,12 +271,12 @@ def judgeDisp (lines : List String) : Verdict := Id.run do
       div := div ++ [s!"entry {e.idx}: model publishes (stage, attempt, ok)={mseq}, impl {oseq}"]
     else
       for ((_, m), o) in pubs.zip e.pubs do
-        match o.delay with
-        | some d =>
+        match o.lo with
+        | some lo =>
           ndelays := ndelays + 1
-          -- the measured value can only fall short of the computed delay (two clock readings apart)
-          if d + delayTolMs < m.delay || m.delay < d then
-            delayMiss := delayMiss ++ [s!"entry {e.idx} attempt {o.attempt}: model backoff {m.delay} ms, observed {d} ms"]
+          -- the computed delay lies between the two measurements — no tolerance involved
+          if m.delay < lo || (match o.hi with | some hi => hi < m.delay | none => false) then
+            delayMiss := delayMiss ++ [s!"entry {e.idx} attempt {o.attempt}: model backoff {m.delay} ms, observed between {lo} and {o.hi} ms"]
         | none => pure ()
     -- judge
     let lost := (e.pubs.filter fun p => p.outcome == 'L' || p.outcome == 'K').length
@@ -315,22 +317,23 @@ def judgeDisp (lines : List String) : Verdict := Id.run do
     for o in e.pubs do
       if o.early then
         vio := vio ++ [("C22.retry-before-backoff-elapsed", s!"entry {e.idx}: the attempt after #{o.attempt} started before its scheduled instant")]
-      match o.delay with
-      | some d =>
-        let dc := dcs.getD o.stage { maxAttempts := 0, minBackoff := 1, maxBackoff := 1 }
-        let lower := if dc.minBackoff * 2 ^ (o.attempt - 1) > dc.maxBackoff then dc.maxBackoff else dc.minBackoff * 2 ^ (o.attempt - 1)
-        if d > dc.maxBackoff then
-          vio := vio ++ [("C22.backoff-out-of-bounds", s!"entry {e.idx} after attempt {o.attempt}: delay {d} ms exceeds MaxBackoff {dc.maxBackoff}")]
-        else if d + delayTolMs < lower then
-          boundMiss := boundMiss ++ [s!"entry {e.idx} after attempt {o.attempt}: delay {d} ms, expected min({dc.minBackoff}·2^{o.attempt - 1}, {dc.maxBackoff})"]
+      let dc := dcs.getD o.stage { maxAttempts := 0, minBackoff := 1, maxBackoff := 1 }
+      let lower := if dc.minBackoff * 2 ^ (o.attempt - 1) > dc.maxBackoff then dc.maxBackoff else dc.minBackoff * 2 ^ (o.attempt - 1)
+      match o.lo with
+      | some lo =>
+        if lo > dc.maxBackoff then
+          vio := vio ++ [("C22.backoff-out-of-bounds", s!"entry {e.idx} after attempt {o.attempt}: delay ≥ {lo} ms exceeds MaxBackoff {dc.maxBackoff}")]
       | none => pure ()
-  -- measured delays: a loaded machine stretches the gap between two clock readings now and then; a
-  -- systematic deviation shows on (almost) every release
-  if delayMiss.length ≥ 3 then div := div ++ delayMiss.take 3
-  if boundMiss.length ≥ 3 then vio := vio ++ (boundMiss.take 3).map fun m => ("C22.backoff-out-of-bounds", m)
+      match o.hi with
+      | some hi =>
+        if hi < lower then
+          boundMiss := boundMiss ++ [s!"entry {e.idx} after attempt {o.attempt}: delay ≤ {hi} ms, expected min({dc.minBackoff}·2^{o.attempt - 1}, {dc.maxBackoff})"]
+      | none => pure ()
+  div := div ++ delayMiss.take 3
+  vio := vio ++ (boundMiss.take 3).map fun m => ("C22.backoff-out-of-bounds", m)
   return { diverge := div, violations := vio, nontrivial := entries.length ≥ 2 && npubs > entries.length,
            fingerprint := fpLines (lines.map fun l => match tokens l with
-             | ["pub", i, st, a, o, _, e] => s!"pub {i} {st} {a} {o} {e}"       -- measured milliseconds are not part of the identity
+             | ["pub", i, st, a, o, _, _, e] => s!"pub {i} {st} {a} {o} {e}"       -- measured milliseconds are not part of the identity
              | _ => l),
            stats := [("disp_entries", entries.length), ("disp_publishes", npubs), ("disp_delivered", ndelivered),
                      ("disp_deadlettered", ndead), ("disp_delays_measured", ndelays), ("disp_lost_reports", nlost), ("disp_cases", 1)] }
